@@ -170,8 +170,23 @@ def oracle_signature(case):
 SEGMENTS = ["pub", "run", "_priv", "__dunder__", "sub", "_sub", "Sub2", "x1", "__mangled", "_"]
 
 
+class Permissive(object):
+    """An attribute that answers for any name (a ServerProxy kept by a gateway, a Mock):
+    whatever is asked of it exists, is callable and is truthy"""
+
+    def __init__(self, log, path):
+        self.__dict__["_log"], self.__dict__["_path"] = log, path
+
+    def __getattr__(self, name):
+        return Permissive(self.__dict__["_log"], self.__dict__["_path"] + (name,))
+
+    def __call__(self, *a, **kw):
+        self.__dict__["_log"].append((".".join(self.__dict__["_path"]), list(a), dict(kw)))
+        return "permissive"
+
+
 def tree_specs(depth=0):
-    leaf = st.just("method")
+    leaf = st.sampled_from(["method", "method", "method", "permissive"])
     if depth >= 2:
         return st.dictionaries(st.sampled_from(SEGMENTS), leaf, min_size=1, max_size=4)
     return st.dictionaries(st.sampled_from(SEGMENTS), st.one_of(leaf, leaf, st.deferred(lambda: tree_specs(depth + 1))), min_size=1, max_size=4)
@@ -217,6 +232,8 @@ def build_instance(tree, log, path=()):
         if isinstance(v, dict):
             # bypass name mangling: set through __dict__
             obj.__dict__[k] = build_instance(v, log, path + (k,))
+        elif v == "permissive":
+            obj.__dict__[k] = Permissive(log, path + (k,))
     return obj
 
 
@@ -240,6 +257,8 @@ def oracle_instance(case):
             private = True
             status = "unknown"
             break
+        if node == "permissive":
+            continue      # anything public below it exists; a private segment further down is still private
         if not isinstance(node, dict) or seg not in node:
             # attributes of methods (e.g. pub.__call__) start with '_' -> caught above;
             # anything else that is not in the generated tree does not exist
@@ -248,8 +267,9 @@ def oracle_instance(case):
         node = node[seg]
     else:
         status = "method" if node == "method" else "object"
-    if status == "object":
-        raise Skip()   # R8
+    below_permissive = status != "unknown" and node == "permissive"
+    if status == "object" or below_permissive:
+        raise Skip()   # R8 (and: what a permissive attribute answers for public names is its own business)
     if status == "unknown" and not private:
         # a public segment not in the spec may still exist on the real objects
         # (inherited from object: none are public) or on bound methods
@@ -278,7 +298,7 @@ def oracle_instance(case):
             fail("C05/private-reachable" if private else "C05/invocations", "name %r invoked %r" % (name, log))
     depth = name.count(".")
     return Info(nt=status != "method" or depth > 0,
-                classes=["instance", "private-segment" if private else status, "depth:%d" % min(depth, 3), "client:%s" % ("ok" if client != "skipped" else "skipped")],
+                classes=["instance", "private-segment" if private else status] + (["permissive-attribute"] if "permissive" in repr(case["tree"]) else []) + [ "depth:%d" % min(depth, 3), "client:%s" % ("ok" if client != "skipped" else "skipped")],
                 sample={"tree": case["tree"], "name": name, "code": code})
 
 
@@ -357,13 +377,15 @@ def oracle_history(case):
                     private = True
                     status = "unknown"
                     break
+                if node == "permissive":
+                    continue
                 if not isinstance(node, dict) or seg not in node:
                     status = "unknown"
                     break
                 node = node[seg]
             else:
                 status = "method" if node == "method" else "object"
-            if status == "object" or not name:
+            if status == "object" or not name or (status != "unknown" and node == "permissive"):
                 continue
             del log[:]
             o, code, n_direct, client = dispatch_and_proxy(disp, name, [n_calls], case["version"], None if status == "method" else -32601, log)
@@ -517,6 +539,54 @@ def oracle_exception(case):
 
 
 # ---------------------------------------------------------------------------
+# 4b. callables that cannot be introspected (built-ins): argument mismatches are -32602 all the same
+
+BUILTIN_CALLS = [
+    # (callable name, params, expected: "mismatch" or the JSON result)
+    ("len", [], "mismatch"), ("len", [[1], [2]], "mismatch"), ("len", {"x": 1}, "mismatch"), ("len", ["abc"], 3),
+    ("abs", [], "mismatch"), ("abs", [1, 2], "mismatch"), ("abs", [-3], 3),
+    ("divmod", [1], "mismatch"), ("divmod", [7, 2], [3, 1]), ("divmod", [7, 2, 1], "mismatch"),
+    ("max", [], "mismatch"), ("max", [1, 2], 2), ("min", [], "mismatch"),
+    ("int", {"nope": 1}, "mismatch"), ("int", ["12"], 12), ("int", [1, 2, 3], "mismatch"),
+    ("str", [1], "1"), ("str", {"nope": 1}, "mismatch"),
+    ("math.floor", [], "mismatch"), ("math.floor", [1.5], 1), ("math.floor", [1.5, 2], "mismatch"),
+    ("list.count", [], "mismatch"), ("dict.get", [1, 2, 3, 4], "mismatch"), ("dict.get", ["k"], "v"),
+    ("sorted", [], "mismatch"), ("sorted", [[3, 1]], [1, 3]), ("operator.add", [1], "mismatch"), ("operator.add", [1, 2], 3),
+]
+
+
+def builtin_cases(tier):
+    for i in range(len(BUILTIN_CALLS)):
+        for version in (1.0, 2.0):
+            for via in ("function", "instance"):
+                yield {"call": i, "version": version, "via": via}
+
+
+def oracle_builtin(case):
+    import math
+    import operator
+    from jsonrpclib.SimpleJSONRPCServer import SimpleJSONRPCDispatcher
+    from jsonrpclib.config import Config
+
+    name, params, expected = BUILTIN_CALLS[case["call"]]
+    target = {"len": len, "abs": abs, "divmod": divmod, "max": max, "min": min, "int": int, "str": str, "math.floor": math.floor,
+              "list.count": [1, 2].count, "dict.get": {"k": "v"}.get, "sorted": sorted, "operator.add": operator.add}[name]
+    disp = SimpleJSONRPCDispatcher(config=Config(version=case["version"]))
+    if case["via"] == "function":
+        disp.register_function(target, "target")
+    else:
+        disp.register_instance(type("H", (object,), {"target": staticmethod(target)})())
+    o, code, n_direct, client = dispatch_and_proxy(disp, "target", params, case["version"], -32602 if expected == "mismatch" else None, [])
+    if expected == "mismatch":
+        if code != -32602:
+            fail("C05/code:-32602->%s" % code, "built-in %s called with %r answered %r, expected -32602" % (name, params, o.get("error") or o.get("result")), o)
+    elif code is not None or not gen.strict_eq(o.get("result"), expected):
+        fail("C05/code:ok->%s" % code, "built-in %s called with %r answered %r" % (name, params, o.get("error") or o.get("result")), o)
+    return Info(nt=expected == "mismatch", classes=["builtin:" + name, "mismatch" if expected == "mismatch" else "binds", "via:" + case["via"]],
+                key=(case["call"], case["version"], case["via"]), sample={"callable": name, "params": params, "reply": o})
+
+
+# ---------------------------------------------------------------------------
 # 5. translator-rejected payloads -> -32700, nothing invoked
 
 bad_descriptors = st.one_of(
@@ -543,7 +613,10 @@ def translator_cases(draw):
         req = [good, {"jsonrpc": "2.0", "id": 2, "method": "echo", "params": [dv]}]
     else:
         req = [{"jsonrpc": "2.0", "id": 2, "method": "echo", "params": [dv]}, good]
-    return {"text": json.dumps(req), "version": draw(st.sampled_from([1.0, 2.0])), "place": place, "desc": desc}
+    from props.c08 import respell
+    # the member name may be spelled with \\uXXXX escapes: the same payload for the parser
+    text = respell(json.dumps(req), draw(st.one_of(st.just(0), st.just(0), st.integers(1, 2 ** 13 - 1))))
+    return {"text": text, "version": draw(st.sampled_from([1.0, 2.0])), "place": place, "desc": desc}
 
 
 def oracle_translator(case):
@@ -597,6 +670,8 @@ SUBS = [
     Sub("exceptions", oracle_exception, strategy=lambda tier: exception_cases(),
         budget={"quick": 3000, "thorough": 60000}, shards={"quick": 4, "thorough": 8},
         what="32 exception classes x generated messages -> -32603 naming type and text"),
+    Sub("builtins", oracle_builtin, enumerate=builtin_cases, shards={"quick": 1, "thorough": 1},
+        what="28 calls of built-in callables without introspectable signature (len, abs, divmod, max, int, str, bound methods, operator.add ...): arity / keyword mismatches -> -32602, matching calls -> result"),
     Sub("translator", oracle_translator, strategy=lambda tier: translator_cases(),
         budget={"quick": 1000, "thorough": 20000}, shards={"quick": 2, "thorough": 4},
         what="payloads the class translator rejects -> single -32700, nothing invoked"),
